@@ -1493,8 +1493,12 @@ int NifFile::Save(std::ostream& file, const NifSaveOptions& options) {
 		NiOStream stream(&file, &hdr);
 		FinalizeData();
 
-		if (options.optimize)
+		if (options.optimize) {
 			Optimize();
+
+			// Blocks may have been pruned: do not keep their strings in the header
+			hdr.UpdateHeaderStrings(hasUnknown);
+		}
 
 		if (options.sortBlocks)
 			PrettySortBlocks();
